@@ -123,11 +123,11 @@ def evaluate_find(case):
 
 # ------------------------------------------------------------------------------------------- valid graph
 
-def check_valid_graph(k, bits, as_bool, verbose=False):
+def check_valid_graph(k, bits, as_bool, verbose=False, dtype=None):
     import numpy
     dsw = import_dsw()
     n = 4 ** k
-    mask = gens.pooled(numpy.array(bits, dtype=bool if as_bool else int), "mask")
+    mask = gens.pooled(numpy.array(bits, dtype=dtype or (bool if as_bool else int)), "mask")
     before = mask.tobytes()
     got = lib_call(dsw.connect_valid_graph, observed_length=k, vertices=mask, verbose=verbose)
     if mask.tobytes() != before:
@@ -192,7 +192,9 @@ def valid_cases(draw, tier):
     else:
         bits = [0] * (4 ** k)
     return {"k": k, "bits": "".join(map(str, bits)), "bool": draw(st.booleans()) and kind != "values>1",
-            "none": kind == "none", "verbose": k <= 5 and draw(st.integers(0, 3)) == 0}
+            "none": kind == "none", "verbose": k <= 5 and draw(st.integers(0, 3)) == 0,
+            "dtype": draw(st.sampled_from([None, None, None, "uint8", "int8", "int32"])),
+            "full": draw(st.sampled_from([False] * 9 + [True]))}
 
 
 def evaluate_valid_drawn(case):
@@ -204,12 +206,19 @@ def evaluate_valid_drawn(case):
             return Outcome(True, True, ["none_mask"])
         return bad("connect_valid_graph(vertices=None) gave %r instead of ValueError" % (got,))
     bits = [int(c) for c in case["bits"]]
-    detail, nontrivial = check_valid_graph(k, bits, case["bool"], verbose=bool(case.get("verbose")))
+    if case.get("full") and not case["none"]:
+        bits = [1] * len(bits)  # the complete mask: 4^k marked vertices (a multiple of 256 from order 4 on)
+    detail, nontrivial = check_valid_graph(k, bits, case["bool"], verbose=bool(case.get("verbose")),
+                                           dtype=case.get("dtype"))
     labels = ["k=%d" % k, "empty_mask" if not any(bits) else "mask"]
     if any(b > 1 for b in bits):
         labels.append("mask_values>1")
     if case.get("verbose"):
         labels.append("verbose")
+    if case.get("dtype"):
+        labels.append("mask_dtype:" + case["dtype"])
+    if case.get("full"):
+        labels.append("complete_mask")
     if detail:
         return bad(detail, labels)
     return Outcome(True, nontrivial, labels)
